@@ -31,6 +31,11 @@ func c15(c *Ctx) {
 	}
 	fns := c.censusRegion(entries, nil)
 	conds := c.populationConditions()
+	// P2 ("a registered type that is not a struct never reaches the struct walk") also needs the enum arm of
+	// decodeObject to leave on every path
+	if okEnum, _ := enumLeavesBeforeWalk(c); !okEnum {
+		conds["P2"] = false
+	}
 	r.Rule("R15.T", "every loop whose bound comes from the wire leaves on the sticky decoder error", 2)
 	c.loopTermination("R15.T", fns)
 	c.readerLoops("R15.T", fns)
@@ -46,32 +51,7 @@ func c15(c *Ctx) {
 		if f := c.P.Func(load.TLPkg, "", "Marshal"); f != nil {
 			entries2 = append(entries2, f)
 		}
-		region := c.censusRegion(entries2, nil)
-		ws := an.GlobalWrites(region)
-		ord := map[string]int{}
-		own := 0
-		for _, w := range ws {
-			if w.Global.Pkg != nil && !strings.HasPrefix(w.Global.Pkg.Pkg.Path(), "github.com/xelaj/mtproto") {
-				continue
-			}
-			base := an.ShortName(w.Instr.Parent()) + "/" + w.Global.Name()
-			ord[base]++
-			own++
-			locked := false
-			for _, cs := range an.Calls(w.Instr.Parent()) {
-				if (cs.Name == "(*sync.Mutex).Lock" || cs.Name == "(*sync.RWMutex).Lock") && an.InstrDominates(cs.Instr, w.Instr) {
-					locked = true
-				}
-			}
-			if locked {
-				r.Hold("R15.G", sprintf("global-write:%s#%d", base, ord[base]), c.pos(w.Instr.Pos()), "package variable written inside an exclusive lock section")
-				continue
-			}
-			r.Violate("R15.G", sprintf("global-write:%s#%d", base, ord[base]), c.pos(w.Instr.Pos()), sprintf("%s of the package variable %s on a codec path: two decodes (the receive loop and a caller, or two clients) write it concurrently", w.What, w.Global.Name()))
-		}
-		if own == 0 {
-			r.Hold("R15.G", "global-write:none", "", sprintf("%d functions reachable from the codec entry points, none writes a package variable", len(region)))
-		}
+		c.noGlobalWrites("R15.G", entries2, "a codec path: two decodes (the receive loop and a caller, or two clients) write it concurrently")
 	}
 	n, d, a := c.runCensus("R15.C", fns, nil, conds)
 	r.Extra["census_functions"] = len(fns)
@@ -519,4 +499,172 @@ func (c *Ctx) recursionGated(rule string, fns []*ssa.Function) {
 		return
 	}
 	r.Hold(rule, "recursion:gated", "", sprintf("%d functions in the region, depth gates %v: without them the call graph is acyclic", len(fns), gates))
+	c.depthBalanced(rule)
+}
+
+// depthBalanced: a level that was counted is given back on every way out - by a deferred decrement, or by a
+// decrement on every path from the increment to a return.  A leaked level makes the depth grow with the number of
+// values decoded, not with their nesting, and an honest message of a thousand scalars is refused as "too deep".
+func (c *Ctx) depthBalanced(rule string) {
+	r := c.R
+	isDepthAddr := func(v ssa.Value) bool {
+		fa, ok := v.(*ssa.FieldAddr)
+		if !ok {
+			return false
+		}
+		k, _ := fieldKeyOf(fa)
+		return strings.HasSuffix(k, load.TLPkg+".Decoder.depth")
+	}
+	step := func(st *ssa.Store) int64 {
+		if !isDepthAddr(st.Addr) {
+			return 0
+		}
+		bo, ok := st.Val.(*ssa.BinOp)
+		if !ok {
+			return 0
+		}
+		ld, ok := bo.X.(*ssa.UnOp)
+		if !ok || !isDepthAddr(ld.X) {
+			return 0
+		}
+		// same decoder: the address chain starts at the same receiver
+		if ld.X.(*ssa.FieldAddr).X != st.Addr.(*ssa.FieldAddr).X {
+			return 0
+		}
+		k, isK := an.ConstInt(bo.Y)
+		if !isK {
+			return 0
+		}
+		switch bo.Op {
+		case token.ADD:
+			return k
+		case token.SUB:
+			return -k
+		}
+		return 0
+	}
+	n := 0
+	for f := range c.P.AllFunctions() {
+		if load.FuncPkgPath(f) != load.TLPkg || len(f.Blocks) == 0 || f.Parent() != nil {
+			continue
+		}
+		var incs []*ssa.Store
+		decBlocks := map[*ssa.BasicBlock]bool{}
+		for _, b := range f.Blocks {
+			for _, in := range b.Instrs {
+				if st, ok := in.(*ssa.Store); ok {
+					switch step(st) {
+					case 1:
+						incs = append(incs, st)
+					case -1:
+						decBlocks[b] = true
+					}
+				}
+			}
+		}
+		if len(incs) == 0 {
+			continue
+		}
+		n++
+		key := "depth:balanced:" + an.ShortName(f)
+		// a deferred literal that decrements, registered after the increment
+		deferred := false
+		for _, b := range f.Blocks {
+			for _, in := range b.Instrs {
+				df, ok := in.(*ssa.Defer)
+				if !ok {
+					continue
+				}
+				mc, ok := df.Call.Value.(*ssa.MakeClosure)
+				if !ok {
+					continue
+				}
+				g := mc.Fn.(*ssa.Function)
+				for _, gb := range g.Blocks {
+					for _, gin := range gb.Instrs {
+						if st, ok := gin.(*ssa.Store); ok {
+							if bo, ok := st.Val.(*ssa.BinOp); ok && bo.Op == token.SUB && isDepthAddr(st.Addr) {
+								if an.InstrDominates(incs[0], df) {
+									deferred = true
+								}
+							}
+						}
+					}
+				}
+			}
+		}
+		if deferred {
+			r.Hold(rule, key, c.pos(incs[0].Pos()), "the level is given back by a deferred decrement registered right after it is counted")
+			continue
+		}
+		// explicit decrements: no return reachable from the increment without passing one
+		cut := map[an.Edge]bool{}
+		for b := range decBlocks {
+			for k := range b.Succs {
+				cut[an.Edge{From: b, Succ: k}] = true
+			}
+		}
+		var bad []string
+		inc := incs[0]
+		ib := inc.Block()
+		nn := &an.NonNil{IsErrField: func(fa *ssa.FieldAddr) bool {
+			k, st := fieldKeyOf(fa)
+			return st != nil && strings.HasSuffix(k, load.TLPkg+".Decoder.err")
+		}}
+		for k := range ib.Succs {
+			reach := an.ReachFrom(f, an.Edge{From: ib, Succ: k}, cut)
+			for _, b := range f.Blocks {
+				ret, isRet := an.AsReturn(b.Instrs[len(b.Instrs)-1])
+				if isRet && reach[b] && !decBlocks[b] {
+					if nn.ErrSetAt(b) {
+						continue // the sticky error is set: nothing is decoded any more, the count no longer matters
+					}
+					bad = append(bad, "the return at "+c.pos(ret.Pos())+" is reached with the level still counted")
+				}
+			}
+		}
+		if ret, isRet := an.AsReturn(ib.Instrs[len(ib.Instrs)-1]); isRet && !decBlocks[ib] {
+			bad = append(bad, "the return at "+c.pos(ret.Pos())+" is reached with the level still counted")
+		}
+		sort.Strings(bad)
+		if len(bad) > 3 {
+			bad = append(bad[:3], sprintf("… (%d exits)", len(bad)))
+		}
+		r.Check(len(bad) == 0, rule, key, c.pos(inc.Pos()), "every exit after the increment of Decoder.depth passes a decrement: "+strings.Join(bad, "; "))
+	}
+	if n == 0 {
+		r.Hold(rule, "depth:balanced:none", "", "no function of package tl counts nesting levels")
+	}
+}
+
+// noGlobalWrites: nothing reachable from the entries (repository functions) writes package-level state outside an
+// exclusive lock section.
+func (c *Ctx) noGlobalWrites(rule string, entries []*ssa.Function, where string) {
+	r := c.R
+	region := c.censusRegion(entries, nil)
+	ws := an.GlobalWrites(region)
+	ord := map[string]int{}
+	own := 0
+	for _, w := range ws {
+		if w.Global.Pkg != nil && !strings.HasPrefix(w.Global.Pkg.Pkg.Path(), "github.com/xelaj/mtproto") {
+			continue
+		}
+		base := an.ShortName(w.Instr.Parent()) + "/" + w.Global.Name()
+		ord[base]++
+		own++
+		locked := false
+		for _, cs := range an.Calls(w.Instr.Parent()) {
+			if (cs.Name == "(*sync.Mutex).Lock" || cs.Name == "(*sync.RWMutex).Lock") && an.InstrDominates(cs.Instr, w.Instr) {
+				locked = true
+			}
+		}
+		if locked {
+			r.Hold(rule, sprintf("global-write:%s#%d", base, ord[base]), c.pos(w.Instr.Pos()), "package variable written inside an exclusive lock section")
+			continue
+		}
+		r.Violate(rule, sprintf("global-write:%s#%d", base, ord[base]), c.pos(w.Instr.Pos()), sprintf("%s of the package variable %s on %s", w.What, w.Global.Name(), where))
+	}
+	if own == 0 {
+		r.Hold(rule, "global-write:none", "", sprintf("%d functions reachable from the entry points, none writes a package variable", len(region)))
+	}
 }
